@@ -393,7 +393,14 @@ class DataFrameSchemaBackend(PolarsSchemaBackend):
                 )
                 for k, v in missing_cols_schema.items()
             }
-        ).cast({k: v.dtype.type for k, v in missing_cols_schema.items()})
+        ).cast(
+            {
+                k: v.dtype.type
+                for k, v in missing_cols_schema.items()
+                # no dtype declared, keep the fill value as is
+                if v.dtype is not None
+            }
+        )
 
         # Set column order
         check_obj = check_obj.select(ordered_cols)
